@@ -225,8 +225,8 @@ class C18(props.BaseProp):
 
 P = props.register(C18())
 P.manifest = {
-    "text": "TO BE FILLED",
-    "note": "TO BE FILLED",
+    "text": "Unbounded theorems for ANY number structure satisfying ordered-field-with-sqrt laws (record Laws; closed under the global context), about the transcribed power iteration: multi-edge graphs are refused with WrongMethod (F14 repaired); the only errors are WrongMethod / PowerIterationFailedConvergence; Ok is returned only from a pass whose L1 test against n*tol succeeded and never when no pass within max_iter meets it; the returned x = normalise(xlast + A^T xlast) with ||x - xlast||_1 < n*tol; one entry per node (keys = node names); all entries >= 0 and sum of squares = 1 when the stored weights are >= 0. The laws are instantiated with Coq's reals (non-vacuity example: one-node graph converges).",
+    "note": "Chosen route for sqrt: the model is polymorphic in a Num record; it is EXECUTED on Coq primitive binary64 floats for the correspondence (no theorem mentions that instance) and PROVED for any lawful instance. Stretch not proved: explicit bound on ||T x - x||_1 (checked on the implementation's output by the oracle with L = 2 sqrt(n) ||I+A^T||_F) and 'spread = x + A^T x' in matrix form (oracle recomputes it from the edge list). Outcome comparison is skipped only when a decisive L1 value is within 1e-9 relative of the threshold (counted in the evidence). Axioms: none for the generic theorems; the R instance (C18_unit_norm_real, C18_real_instance_nonvacuous) uses ClassicalDedekindReals.sig_forall_dec, sig_not_dec and FunctionalExtensionality.functional_extensionality_dep (stdlib Reals).",
     "technique": "Coq proof over an abstract ordered field with sqrt (instantiated with R) + differential "
                  "correspondence vs the same model executed on Coq primitive floats + property oracle on the "
                  "implementation",
